@@ -219,6 +219,7 @@ impl<'a> FG<'a> {
             return self.leaf(t);
         }
         let d1 = d - 1;
+        if self.r.chance(1, 25) { return self.dup_template(t, d1); }
         if self.k.allow_f2 && self.r.chance(1, 6) { return self.f2_template(t, d1); }
         if self.k.allow_f1 && self.r.chance(1, 6) { return self.f1_template(t, d1); }
         match self.r.below(100) {
@@ -256,6 +257,31 @@ impl<'a> FG<'a> {
                     let n = *self.r.pick(&[0i32, 1, 1, 2, 3, 511, 512, 65535, 65536, -1]);
                     self.emit(Op::I32Const(n)); self.plain(0x40); self.pend.push(None); self.st.hit("memory.grow")
                 } else { self.leaf(t) }
+            }
+        }
+    }
+
+    /// several pending reads of one local, then the local is overwritten in the SAME frame: all
+    /// reads must be redirected to one shared reserve register that stays live until the last use
+    fn dup_template(&mut self, t: VT, d: u32) {
+        let i = match self.pick_local(t, true) { Some(i) => i, None => return self.leaf(t) };
+        self.st.hit("template:dup-reads-then-set");
+        let k = self.r.range(2, 4);
+        for _ in 0..k { self.emit(Op::LocalGet(i)); self.pend.push(Some(i)); }
+        if self.r.chance(1, 2) { self.leaf(t); } else { self.expr(t, d.min(2)); }
+        if self.can_set(i as usize) {
+            if self.r.chance(1, 3) { self.emit(Op::LocalTee(i)); self.plain(0x1a); } else { self.emit(Op::LocalSet(i)); }
+        } else { self.plain(0x1a); }
+        self.pend.pop();
+        let op = if t == VT::I32 { *self.r.pick(&[0x6a_u8, 0x6b, 0x73, 0x6c]) } else { *self.r.pick(&[0x7c_u8, 0x7d, 0x85, 0x7e]) };
+        for j in 0..k - 1 {
+            if j == 0 && self.r.chance(1, 2) {
+                // something in between that needs a fresh temporary
+                self.emit(Op::LocalGet(i)); self.pend.push(Some(i));
+                self.plain(op); self.pend.pop(); self.pend.pop(); self.pend.push(None);
+                self.plain(op); self.pend.pop(); self.pend.pop(); self.pend.push(None);
+            } else {
+                self.plain(op); self.pend.pop(); self.pend.pop(); self.pend.push(None);
             }
         }
     }
@@ -688,7 +714,10 @@ impl<'a> FG<'a> {
             }
             84..=87 => {
                 // br_if carrying a value (F1 class)
-                let ls: Vec<u32> = self.labels(|f| f.label.is_some() && f.branchable);
+                // (not the function label when local 0 is a loop counter: the F1 copy into local 0 would
+                // make the implementation loop forever, which only costs watchdog time)
+                let counter0 = self.reserved.first().copied().unwrap_or(false);
+                let ls: Vec<u32> = self.labels(|f| f.label.is_some() && f.branchable && !(counter0 && f.kind == FK::Func));
                 if !self.k.allow_f1 || ls.is_empty() { self.set_local(d1) } else {
                     let l = *self.r.pick(&ls);
                     let t = self.frames[self.frames.len() - 1 - l as usize].label.unwrap();
@@ -867,7 +896,8 @@ pub fn gen_case(r: &mut Rng, st: &mut Stats) -> (Case, Knobs) {
     // memory
     if r.chance(9, 10) {
         let min = *r.pick(&[0u32, 1, 1, 1, 1, 2, 1, 1, 1, 2, 1, 1]);
-        let max = match r.below(6) { 0 => None, 1 => Some(min), 2 => Some(min + 1), 3 => Some(min + 2), 4 => Some(600), _ => Some(min + 3) };
+        // a memory that can reach the embedder's cap (512 pages = 32 MiB) is expensive to observe: keep it rare
+        let max = match r.below(40) { 0 => None, 1 => Some(600), 2..=10 => Some(min), 11..=20 => Some(min + 1), 21..=30 => Some(min + 2), _ => Some(min + 3) };
         env.mem = Some((min, max));
         m.mem = env.mem;
         let len = min as u64 * 65536;
